@@ -65,8 +65,35 @@ fn main() {
         })
         .buf,
     ];
-    for m in cat::hellos_with_extension_lists().into_iter().filter(|w| w.lens.first().map_or(false, |l| l.label == "hs_len")).rev().take(12).step_by(2) {
-        recs.push(cat::record(0x16, 0x0303, |w| { w.append(&m); }).buf);
+    // records carrying hellos whose extension blocks are those of deployed stacks (TLS 1.3 server blocks, PSK, HRR, browser-like ClientHello)
+    let profiles = cat::hello_profiles();
+    for (pi, server) in [(5usize, true), (6, true), (8, true), (0, false), (1, false)] {
+        let block = &profiles[pi];
+        recs.push(
+            cat::record(0x16, 0x0303, |w| {
+                w.append(&cat::hs(if server { 2 } else { 1 }, |w| {
+                    w.u16(0x0303);
+                    w.fill(32, 0x20);
+                    w.block(1, "sid_len", |w| {
+                        w.fill(32, 9);
+                    });
+                    if server {
+                        w.u16(0x1301).u8(0);
+                    } else {
+                        w.block(2, "ciphers_len", |w| {
+                            w.u16(0x1301).u16(0x00ff);
+                        });
+                        w.block(1, "comp_len", |w| {
+                            w.u8(0);
+                        });
+                    }
+                    w.block(2, "ext_len", |w| {
+                        w.bytes(block);
+                    });
+                }));
+            })
+            .buf,
+        );
     }
     let d_hs = cat::dtls_handshake_messages();
     let drecs: Vec<Vec<u8>> = vec![
@@ -175,6 +202,34 @@ fn main() {
     });
     sink.merge(sb);
     sink.bump("malformed-record terminators", nbad as u64);
+    // a wider record catalogue (the above plus records whose payload is a prefix of each long message stream: runs of
+    // HelloRequests, zero bytes, unknown types, flights, alerts, ...): all ordered pairs, and triples behind each of the
+    // first three kinds of record (ChangeCipherSpec, alert, handshake)
+    {
+        let mut wide: Vec<Vec<u8>> = recs.clone();
+        for (ty, s) in cat::message_streams() {
+            for n in [8usize, 24, 40, 100] {
+                let mut r = vec![ty, 0x03, 0x03, 0, n as u8];
+                r.extend_from_slice(&s[..n]);
+                wide.push(r);
+            }
+        }
+        let nw = wide.len();
+        let pairs: Vec<(usize, usize)> = (0..nw).flat_map(|a| (0..nw).map(move |b| (a, b))).collect();
+        let sw = par_run(run.threads, pairs.len(), |i, sink| {
+            let (a, b) = pairs[i];
+            let mut buf = wide[a].clone();
+            buf.extend_from_slice(&wide[b]);
+            check(&buf, sink);
+            for first in 0..3usize {
+                let mut t = wide[first].clone();
+                t.extend_from_slice(&buf);
+                check(&t, sink);
+            }
+        });
+        sink.merge(sw);
+        sink.bump("wide-catalogue records", nw as u64);
+    }
     // buffers of many records (5..1000), alone and followed by a truncated record
     let many = cat::many_records();
     let nmany = many.len();
@@ -288,7 +343,7 @@ fn main() {
     cov.insert("terminators".into(), json!(terms.len()));
     cov.insert("concatenations".into(), json!(nseq));
     cov.insert("rule".into(), json!(format!(
-        "every concatenation of 0..{} records from a {}-record catalogue (8 TLS, 4 DTLS) followed by each of {} terminators (nothing, strict prefixes of valid records, oversize headers, valid header with bad content, unknown type, garbage), plus every single lying-length deviation of records carrying each kind of catalogue handshake message (TLS and DTLS) after 0..2 valid records, through tls_parser_many and parse_dtls_plaintext_records; complete records of 16639 / 16640 / 16641 / 16642 / 20000 / 65535 bytes (4 TLS and 3 DTLS kinds) alone, after valid records and followed by data; buffers of 5 / 6 / 7 / 8 / 15 / 100 / 255 / 256 / 257 / 1000 minimal records of 5 kinds; every string of length <= {} (TLS) / <= {} (DTLS) over record-oriented positional alphabets. Oracle: the explicit loop over the real single-record parser (same records by value and slice position, remainder = first failing record, failure iff the first record fails); tls_parser == parse_tls_plaintext on every buffer. Non-trivial: every buffer",
+        "every concatenation of 0..{} records from a {}-record catalogue (8 TLS, 4 DTLS) followed by each of {} terminators (nothing, strict prefixes of valid records, oversize headers, valid header with bad content, unknown type, garbage), plus every single lying-length deviation of records carrying each kind of catalogue handshake message (TLS and DTLS) after 0..2 valid records, through tls_parser_many and parse_dtls_plaintext_records; complete records of 16639 / 16640 / 16641 / 16642 / 20000 / 65535 bytes (4 TLS and 3 DTLS kinds) alone, after valid records and followed by data; all ordered pairs (and triples behind a ChangeCipherSpec / alert / handshake record) of a wide catalogue: those records, records carrying hellos with the extension blocks of deployed stacks and records whose payload is a prefix (8 / 24 / 40 / 100 bytes) of each of 25 message streams; buffers of 5 / 6 / 7 / 8 / 15 / 100 / 255 / 256 / 257 / 1000 minimal records of 5 kinds; every string of length <= {} (TLS) / <= {} (DTLS) over record-oriented positional alphabets. Oracle: the explicit loop over the real single-record parser (same records by value and slice position, remainder = first failing record, failure iff the first record fails); tls_parser == parse_tls_plaintext on every buffer. Non-trivial: every buffer",
         k, nrec, terms.len(), n, nd)));
     // the same check against the crate built with all cargo features (std, serialize, unstable)
     let mut sink = sink;
